@@ -225,3 +225,295 @@ Proof.
   destruct (c =? 92) eqn:E3; [exfalso; lia|].
   destruct (c <? 128) eqn:E4; [exfalso; lia|]. reflexivity.
 Qed.
+
+Lemma utf8_enc_lo : forall r, r < 128 -> utf8_enc r = [r].
+Proof. intros r H. unfold utf8_enc. destruct (r <? 128) eqn:E; [reflexivity|exfalso; lia]. Qed.
+
+Lemma utf8_enc_hi : forall r, 128 <= r -> exists b bs, utf8_enc r = b :: bs /\ 128 <= b.
+Proof.
+  intros r H. unfold utf8_enc. repeat case_if; try (exfalso; lia); eexists; eexists; (split; [reflexivity|lia]).
+Qed.
+
+Lemma str_body_unit : forall html u k tail acc n,
+    unit_ok u ->
+    str_body (S k) (quote_unit html u ++ tail) acc n
+    = str_body k tail (rev (utf8_enc (fst u)) ++ acc) (n + length (quote_unit html u))%nat.
+Proof.
+  intros html [r ok] k tail acc n Hu. unfold unit_ok in Hu. cbn [fst snd] in *.
+  destruct ok; cbn [quote_unit negb]; [|subst r; reflexivity].
+  destruct (r <? 128) eqn:Hr.
+  - destruct (r =? 34) eqn:E1; [apply N.eqb_eq in E1; subst r; reflexivity|].
+    destruct (r =? 92) eqn:E2; [apply N.eqb_eq in E2; subst r; reflexivity|].
+    destruct (r =? 8) eqn:E3; [apply N.eqb_eq in E3; subst r; reflexivity|].
+    destruct (r =? 12) eqn:E4; [apply N.eqb_eq in E4; subst r; reflexivity|].
+    destruct (r =? 10) eqn:E5; [apply N.eqb_eq in E5; subst r; reflexivity|].
+    destruct (r =? 13) eqn:E6; [apply N.eqb_eq in E6; subst r; reflexivity|].
+    destruct (r =? 9) eqn:E7; [apply N.eqb_eq in E7; subst r; reflexivity|].
+    destruct ((r <? 32) || html && ((r =? 60) || (r =? 62) || (r =? 38))) eqn:E8.
+    + cbn [app]. rewrite (str_body_u k _ r tail); [reflexivity| apply hex4_00; lia |].
+      unfold is_surrogate, in_range. lia.
+    + cbn [app]. rewrite str_body_lo by lia. rewrite utf8_enc_lo by lia. reflexivity.
+  - destruct (r =? 8232) eqn:E1; [apply N.eqb_eq in E1; subst r; reflexivity|].
+    destruct (r =? 8233) eqn:E2; [apply N.eqb_eq in E2; subst r; reflexivity|].
+    destruct (utf8_enc_hi r ltac:(lia)) as (b & bs & Hb & Hb1).
+    pose proof (utf8_dec_enc r tail Hu) as Hd.
+    rewrite Hb in *. cbn [app] in *. rewrite str_body_hi by exact Hb1. rewrite Hd.
+    replace (length (b :: bs ++ tail) - length tail)%nat with (length (b :: bs)) by (cbn [length]; rewrite app_length; lia).
+    rewrite Hb. reflexivity.
+Qed.
+
+Lemma quote_unit_len : forall html u, (1 <= length (quote_unit html u))%nat.
+Proof.
+  intros html [r ok]. unfold quote_unit. repeat case_if; cbn [length]; try lia.
+  unfold utf8_enc. repeat case_if; cbn [length]; lia.
+Qed.
+
+Lemma str_body_units : forall html l rest fuel acc n,
+    Forall unit_ok l ->
+    (length (flat_map (quote_unit html) l) < fuel)%nat ->
+    str_body fuel (flat_map (quote_unit html) l ++ 34 :: rest) acc n
+    = Some (rev acc ++ flat_map (fun u => utf8_enc (fst u)) l,
+            (n + length (flat_map (quote_unit html) l))%nat, rest).
+Proof.
+  intros html l. induction l as [|u l IH]; intros rest fuel acc n Hl Hf.
+  - cbn [flat_map app length] in *. destruct fuel as [|k]; [lia|].
+    cbn. rewrite app_nil_r. rewrite Nat.add_0_r. reflexivity.
+  - inversion Hl as [|? ? Hu Hl']; subst.
+    cbn [flat_map] in *. rewrite app_length in Hf. pose proof (quote_unit_len html u) as H1.
+    destruct fuel as [|k]; [lia|].
+    rewrite <- app_assoc. rewrite str_body_unit by exact Hu.
+    rewrite IH by (try exact Hl'; lia).
+    rewrite rev_app_distr, rev_involutive, app_length, <- app_assoc, Nat.add_assoc. reflexivity.
+Qed.
+
+Lemma str_body_quote : forall html s rest fuel acc n,
+    (length (quote_body html s) < fuel)%nat ->
+    str_body fuel (quote_body html s ++ 34 :: rest) acc n
+    = Some (rev acc ++ sanitize s, (n + length (quote_body html s))%nat, rest).
+Proof.
+  intros html s rest fuel acc n H. unfold quote_body, sanitize in *.
+  apply str_body_units; [apply runes_unit_ok | exact H].
+Qed.
+
+Lemma firstn_app_exact : forall (a b : bytes), firstn (length a) (a ++ b) = a.
+Proof. induction a as [|x a IH]; intros b; [reflexivity|]. cbn. rewrite IH. reflexivity. Qed.
+
+Lemma parse_string_quote : forall html s rest,
+    parse_string (quote_body html s ++ 34 :: rest) = Some (quote_body html s, sanitize s, rest).
+Proof.
+  intros html s rest. unfold parse_string.
+  rewrite (str_body_quote html s rest) by (rewrite app_length; cbn [length]; lia).
+  cbn [rev app Nat.add]. rewrite firstn_app_exact. reflexivity.
+Qed.
+
+(* ---------------------------------------------------------------- numbers *)
+
+(* case analysis of a byte down to its bits, to evaluate a match against byte literals *)
+Ltac deepN c :=
+  let p := fresh "p" in
+  destruct c as [|p];
+  [try reflexivity | repeat (destruct p as [p|p|]; try reflexivity)].
+
+Definition rest_ok (rest : bytes) : bool :=
+  match rest with
+  | [] => true
+  | c :: _ => (c =? 44) || (c =? 93) || (c =? 125)
+  end.
+
+Lemma rest_ok_cases : forall rest, rest_ok rest = true ->
+    rest = [] \/ exists t, rest = 44 :: t \/ rest = 93 :: t \/ rest = 125 :: t.
+Proof.
+  intros [|c t] H; [left; reflexivity|right]. exists t. cbn [rest_ok] in H.
+  destruct (c =? 44) eqn:E1; [apply N.eqb_eq in E1; subst; auto|].
+  destruct (c =? 93) eqn:E2; [apply N.eqb_eq in E2; subst; auto|].
+  destruct (c =? 125) eqn:E3; [apply N.eqb_eq in E3; subst; auto|]. discriminate.
+Qed.
+
+Ltac rest_cases H :=
+  let t := fresh "t" in
+  destruct (rest_ok_cases _ H) as [->|[t [->|[->| ->]]]].
+
+(* the stages of parse_number *)
+Definition st_sign (s : bytes) : bytes * bytes :=
+  match s with 45 :: r => ([45], r) | _ => ([], s) end.
+
+Definition st_int (s1 : bytes) : option (bytes * bytes) :=
+  match s1 with
+  | [] => None
+  | c :: r =>
+    if c =? 48 then Some ([48], r)
+    else if in_range 49 57 c then let '(d, r') := span_digits r in Some (c :: d, r')
+    else None
+  end.
+
+Definition st_frac (s2 : bytes) : option (bytes * bytes) :=
+  match s2 with
+  | 46 :: r2 => let '(d, r') := span_digits r2 in
+                match d with [] => None | _ => Some (46 :: d, r') end
+  | _ => Some ([], s2)
+  end.
+
+Definition st_esign (r3 : bytes) : bytes * bytes :=
+  match r3 with
+  | 43 :: r' => ([43], r')
+  | 45 :: r' => ([45], r')
+  | _ => ([], r3)
+  end.
+
+Definition st_exp (s3 : bytes) : option (bytes * bytes) :=
+  match s3 with
+  | e :: r3 =>
+    if (e =? 101) || (e =? 69) then
+      let '(es, r4) := st_esign r3 in
+      let '(d, r') := span_digits r4 in
+      match d with [] => None | _ => Some (e :: es ++ d, r') end
+    else Some ([], s3)
+  | [] => Some ([], s3)
+  end.
+
+Lemma parse_number_stages : forall s,
+    parse_number s =
+    let '(sg, s1) := st_sign s in
+    match st_int s1 with
+    | None => None
+    | Some (i, s2) =>
+      match st_frac s2 with
+      | None => None
+      | Some (f, s3) =>
+        match st_exp s3 with
+        | None => None
+        | Some (x, s4) => Some (sg ++ i ++ f ++ x, s4)
+        end
+      end
+    end.
+Proof.
+  intros [|c r]; [reflexivity|]. deepN c. destruct r; reflexivity.
+Qed.
+
+Lemma st_sign_eq : forall s,
+    st_sign s = match s with
+                | c :: r => if c =? 45 then ([45], r) else ([], s)
+                | [] => ([], s)
+                end.
+Proof.
+  intros [|c r]; [reflexivity|]. unfold st_sign.
+  destruct (c =? 45) eqn:E; [apply N.eqb_eq in E; subst; reflexivity|].
+  deepN c. vm_compute in E; discriminate E.
+Qed.
+
+Lemma st_frac_eq : forall s2,
+    st_frac s2 = match s2 with
+                 | c :: r2 =>
+                   if c =? 46 then
+                     let '(d, r') := span_digits r2 in
+                     match d with [] => None | _ => Some (46 :: d, r') end
+                   else Some ([], s2)
+                 | [] => Some ([], s2)
+                 end.
+Proof.
+  intros [|c r]; [reflexivity|]. unfold st_frac.
+  destruct (c =? 46) eqn:E; [apply N.eqb_eq in E; subst; reflexivity|].
+  deepN c. vm_compute in E; discriminate E.
+Qed.
+
+Lemma st_esign_eq : forall r3,
+    st_esign r3 = match r3 with
+                  | c :: r' => if c =? 43 then ([43], r') else if c =? 45 then ([45], r') else ([], r3)
+                  | [] => ([], r3)
+                  end.
+Proof.
+  intros [|c r]; [reflexivity|]. unfold st_esign.
+  destruct (c =? 43) eqn:E; [apply N.eqb_eq in E; subst; reflexivity|].
+  destruct (c =? 45) eqn:E'; [apply N.eqb_eq in E'; subst; reflexivity|].
+  deepN c; first [vm_compute in E; discriminate E | vm_compute in E'; discriminate E'].
+Qed.
+
+Definition ext (rest : bytes) (o : option (bytes * bytes)) : option (bytes * bytes) :=
+  match o with Some (a, b) => Some (a, b ++ rest) | None => None end.
+
+Lemma span_digits_app : forall rest s, rest_ok rest = true ->
+    span_digits (s ++ rest) = let '(d, r) := span_digits s in (d, r ++ rest).
+Proof.
+  intros rest s H. induction s as [|c s IH].
+  - cbn [app span_digits]. rest_cases H; reflexivity.
+  - cbn [app span_digits]. destruct (is_digit c); [|reflexivity].
+    rewrite IH. destruct (span_digits s) as [d r]. reflexivity.
+Qed.
+
+Lemma st_sign_app : forall rest s, rest_ok rest = true ->
+    st_sign (s ++ rest) = let '(a, b) := st_sign s in (a, b ++ rest).
+Proof.
+  intros rest s H. destruct s as [|c s].
+  - cbn [app]. rest_cases H; reflexivity.
+  - rewrite !st_sign_eq. cbn [app]. destruct (c =? 45); reflexivity.
+Qed.
+
+Lemma st_int_app : forall rest s, rest_ok rest = true -> st_int (s ++ rest) = ext rest (st_int s).
+Proof.
+  intros rest s H. destruct s as [|c s].
+  - cbn [app]. rest_cases H; reflexivity.
+  - cbn [app st_int]. destruct (c =? 48); [reflexivity|].
+    destruct (in_range 49 57 c); [|reflexivity].
+    rewrite span_digits_app by exact H. destruct (span_digits s) as [d r]. reflexivity.
+Qed.
+
+Lemma st_frac_app : forall rest s, rest_ok rest = true -> st_frac (s ++ rest) = ext rest (st_frac s).
+Proof.
+  intros rest s H. destruct s as [|c s].
+  - cbn [app]. rest_cases H; reflexivity.
+  - rewrite !st_frac_eq. cbn [app]. destruct (c =? 46); [|reflexivity].
+    rewrite span_digits_app by exact H. destruct (span_digits s) as [[|d0 d] r]; reflexivity.
+Qed.
+
+Lemma st_esign_app : forall rest s, rest_ok rest = true ->
+    st_esign (s ++ rest) = let '(a, b) := st_esign s in (a, b ++ rest).
+Proof.
+  intros rest s H. destruct s as [|c s].
+  - cbn [app]. rest_cases H; reflexivity.
+  - rewrite !st_esign_eq. cbn [app]. destruct (c =? 43); [reflexivity|]. destruct (c =? 45); reflexivity.
+Qed.
+
+Lemma st_exp_app : forall rest s, rest_ok rest = true -> st_exp (s ++ rest) = ext rest (st_exp s).
+Proof.
+  intros rest s H. destruct s as [|c s].
+  - cbn [app]. rest_cases H; reflexivity.
+  - cbn [app st_exp]. destruct ((c =? 101) || (c =? 69)); [|reflexivity].
+    rewrite st_esign_app by exact H. destruct (st_esign s) as [es r4].
+    rewrite span_digits_app by exact H. destruct (span_digits r4) as [[|d0 d] r]; reflexivity.
+Qed.
+
+Lemma parse_number_app : forall rest s, rest_ok rest = true ->
+    parse_number (s ++ rest) = ext rest (parse_number s).
+Proof.
+  intros rest s H. rewrite !parse_number_stages.
+  rewrite st_sign_app by exact H. destruct (st_sign s) as [sg s1].
+  rewrite st_int_app by exact H. destruct (st_int s1) as [[i s2]|]; [|reflexivity]. cbn [ext].
+  rewrite st_frac_app by exact H. destruct (st_frac s2) as [[f s3]|]; [|reflexivity]. cbn [ext].
+  rewrite st_exp_app by exact H. destruct (st_exp s3) as [[x s4]|]; reflexivity.
+Qed.
+
+Lemma bytes_eqb_eq : forall a b, bytes_eqb a b = true -> a = b.
+Proof.
+  induction a as [|x a IH]; intros [|y b] H; cbn in H; try discriminate; [reflexivity|].
+  apply andb_true_iff in H. destruct H as [H1 H2]. apply N.eqb_eq in H1. subst. f_equal. auto.
+Qed.
+
+Lemma parse_number_ok : forall lex rest, num_ok lex = true -> rest_ok rest = true ->
+    parse_number (lex ++ rest) = Some (lex, rest).
+Proof.
+  intros lex rest Hn Hr. rewrite parse_number_app by exact Hr. unfold num_ok in Hn.
+  destruct (parse_number lex) as [[l [|? ?]]|]; try discriminate.
+  apply bytes_eqb_eq in Hn. subst. reflexivity.
+Qed.
+
+Definition num_start (c : N) : bool := (c =? 45) || is_digit c.
+
+Lemma num_ok_head : forall lex, num_ok lex = true -> exists c t, lex = c :: t /\ num_start c = true.
+Proof.
+  intros lex H. unfold num_ok in H. rewrite parse_number_stages in H.
+  destruct lex as [|c t]; [discriminate|]. exists c, t. split; [reflexivity|].
+  unfold num_start. rewrite st_sign_eq in H. destruct (c =? 45) eqn:E; [reflexivity|].
+  cbn [st_int] in H. unfold is_digit, in_range in *.
+  destruct (c =? 48) eqn:E1; [lia|].
+  destruct ((49 <=? c) && (c <=? 57)) eqn:E2; [lia|discriminate].
+Qed.
